@@ -12,7 +12,7 @@ from ..paths import show
 from ..report import Report
 from ..table import fmt_val
 from .c05 import check_sanitised
-from .common import HANDLE_FAILURE, RUNNERS, SELF, attr, path_where
+from .common import HANDLE_FAILURE, RUNNERS, SELF, attr, path_where, runner_paths
 from .failure_table import failure_table
 from .runner_flow import RunnerClient, flag1, run_runners, short_witness
 
@@ -213,7 +213,7 @@ def run(rep: Report, prog: Program, tier: str) -> None:
         fi = prog.func(q)
         rep.analysed(q)
         n = 0
-        for p in engine(prog).paths(fi):
+        for p in runner_paths(prog, name):
             for e in p.calls():
                 if e.is_repo(":_sync_failure_outcome") or e.is_repo(":_async_failure_outcome"):
                     d = e.kwargs.get("decision")
@@ -223,8 +223,8 @@ def run(rep: Report, prog: Program, tier: str) -> None:
                         rep.ok("R2.4")
                     else:
                         rep.fail("R2.4", f"{name}|decision-arg", f"{q}: _X_failure_outcome receives decision={show(d)}, not the value returned by handle_exception/handle_result", where=f"{fi.module.relpath}:{e.lineno}", function=q)
-        if n < 2:
-            raise AnalysisError(f"{q}: failure-outcome call sites not found")
+        if n < 4:
+            raise AnalysisError(f"{q}: failure-outcome call sites not found on both branches")
 
     # ---- R2.5
     rep.rule("R2.5", "post-sleep gate: every way back to the loop head after a sleep or a failed attempt crosses the not-passed edge of an `elapsed() > deadline` test")
